@@ -20,7 +20,7 @@ def jobs(tier, seed):
     for bexp in exps:
         q = (bexp if bexp else 1) - 1075
         lo = min(kk(bexp, True), kk(bexp, False))
-        bigw = 200 + int(3.33 * abs(lo)) + abs(q) + 80
+        bigw = 200 + int(3.33 * (abs(lo) + 2)) + abs(q) + 90
         bases = [(0, 'fraction 0 upward (includes the irregular power-of-two case)'), ((1 << 52) - (1 << W), 'top of the significand range')]
         if not q_: bases.append((rnd.randrange(0, (1 << 52) - (1 << W)), 'seeded fraction'))
         for base, desc in bases:
